@@ -44,11 +44,26 @@ M('c14_negative_code_ok', 'C14', 'cell_type_mapper/utils/multiprocessing_utils.p
 M('c14_mapping_swallow', 'C14', 'cell_type_mapper/type_assignment/election.py',
   "    while len(process_list) > 0:\n        process_list = winnow_process_list(process_list)\n\n    if buffer_dir is not None:",
   "    while len(process_list) > 0:\n        try:\n            process_list = winnow_process_list(process_list)\n        except RuntimeError:\n            process_list = [p for p in process_list if p.exitcode is None]\n\n    if buffer_dir is not None:")
-M('c14_refmarkers_in_place', 'C14', 'cell_type_mapper/diff_exp/markers.py',
-  "    tmp_path = create_sparse_by_pair_marker_file(", "    shutil.copy(src=precomputed_stats_path, dst=output_path) if False else None\n    tmp_path = create_sparse_by_pair_marker_file(")
-M('c14_stats_tree_first', 'C14', 'cell_type_mapper/diff_exp/precompute.py',
-  "        out_file.create_dataset('n_cells', shape=(n_clusters,), dtype=int)",
-  "        out_file.create_dataset('n_cells', shape=(n_clusters,), dtype=int)\n        out_file.create_dataset('taxonomy_tree', data=b'{}')")
+M('c14_refmarkers_copied_early_EQUIVALENT', 'C14', 'cell_type_mapper/diff_exp/markers.py',
+  "    duration = time.time()-t0\n    msg = f\"Initial marker discovery took {duration:.2e} seconds\"",
+  "    shutil.copy(src=tmp_path, dst=output_path)\n    duration = time.time()-t0\n    msg = f\"Initial marker discovery took {duration:.2e} seconds\"")
+M('c14_stats_complete_looking_on_failure', 'C14', 'cell_type_mapper/diff_exp/precompute_from_anndata.py',
+  "    buffer_path_list = []\n    process_list = []\n    for work_spec in work_load:",
+  "    _create_empty_stats_file(\n        output_path=output_path,\n        cluster_to_output_row=cluster_to_output_row,\n        n_clusters=n_clusters,\n        n_genes=n_genes,\n        col_names=gene_names)\n    with h5py.File(output_path, 'a') as _early:\n        _early.create_dataset('taxonomy_tree', data=EARLY_TREE[0])\n    buffer_path_list = []\n    process_list = []\n    for work_spec in work_load:")
+MUTANTS['c14_stats_complete_looking_on_failure']['extra'] = [
+  ('cell_type_mapper/diff_exp/precompute_from_anndata.py',
+   "def precompute_summary_stats_from_h5ad_list_and_tree(", "EARLY_TREE = [b'{}']\n\n\ndef precompute_summary_stats_from_h5ad_list_and_tree("),
+  ('cell_type_mapper/diff_exp/precompute_from_anndata.py',
+   "    leaf_to_cells = taxonomy_tree.leaf_to_cells\n\n    cluster_list = list(leaf_to_cells.keys())",
+   "    EARLY_TREE[0] = taxonomy_tree.to_str().encode('utf-8')\n    leaf_to_cells = taxonomy_tree.leaf_to_cells\n\n    cluster_list = list(leaf_to_cells.keys())"),
+  ('cell_type_mapper/diff_exp/precompute_from_anndata.py',
+   "    while len(process_list) > 0:\n        process_list = winnow_process_list(process_list)\n\n    _create_empty_stats_file(\n        output_path=output_path,\n        cluster_to_output_row=cluster_to_output_row,\n        n_clusters=n_clusters,\n        n_genes=n_genes,\n        col_names=gene_names)\n",
+   "    while len(process_list) > 0:\n        process_list = winnow_process_list(process_list)\n"),
+  ('cell_type_mapper/diff_exp/precompute_from_anndata.py',
+   "    with h5py.File(output_path, 'a') as out_file:\n        out_file.create_dataset(\n            'taxonomy_tree',\n            data=taxonomy_tree.to_str().encode('utf-8'))\n\n\ndef precompute_summary_stats_from_h5ad_and_lookup(",
+   "    with h5py.File(output_path, 'a') as out_file:\n        if 'taxonomy_tree' not in out_file:\n            out_file.create_dataset(\n                'taxonomy_tree',\n                data=taxonomy_tree.to_str().encode('utf-8'))\n\n\ndef precompute_summary_stats_from_h5ad_and_lookup("),
+]
+
 
 # ---- C01 ------------------------------------------------------------------------------------
 M('c01_name_chunk_off_by_one', 'C01', 'cell_type_mapper/type_assignment/election.py',
@@ -147,7 +162,7 @@ M('c18_leaf_means_shifted', 'C18', 'cell_type_mapper/type_assignment/matching.py
 M('c18_stats_rows_by_sorted_name_EQUIVALENT', 'C18', 'cell_type_mapper/diff_exp/precompute_from_anndata.py',
   "    cluster_list = list(leaf_to_cells.keys())\n    cluster_list.sort()\n",
   "    cluster_list = list(leaf_to_cells.keys())\n    cluster_list.sort(key=lambda x: x[::-1])\n")
-M('c18_marker_key_format', 'C18', 'cell_type_mapper/marker_selection/selection_pipeline.py',
+M('c18_all_parents_get_no_markers', 'C12', 'cell_type_mapper/marker_selection/selection_pipeline.py',
   "    output_dict[parent_node] = marker_genes", "    output_dict[parent_node] = marker_genes[:0]")
 
 # ---- C05 / C13 ------------------------------------------------------------------------------
